@@ -34,21 +34,28 @@ func (c *Ctx) LoadFC(dir string) *FC {
 		return nil
 	}
 	prog := ir.LowerPackage(m.Main())
-	n := ir.NewNormalizer()
-	for _, k := range []string{"MapL", "MapR", "PairL", "PairR"} {
-		if f, ok := prog.ByName[k]; ok && f.Generated {
-			n.Inline[f.Key] = f
-		}
-	}
-	// helpers added since the pins were reviewed are inlined, so that every rule reading a normal form sees through
-	// an extracted helper (the most common behaviour-preserving refactoring); see baseline_funcs.go
-	if base, ok := baselineFuncs[filepath.Base(m.Dir)]; ok {
-		for _, g := range prog.Funcs {
-			if g.Generated && !base[g.Name] && !reachesItself(prog, g) {
-				n.Inline[g.Key] = g
+	mkNorm := func(skip string) *ir.Normalizer {
+		n := ir.NewNormalizer()
+		for _, k := range []string{"MapL", "MapR", "PairL", "PairR"} {
+			if f, ok := prog.ByName[k]; ok && f.Generated {
+				n.Inline[f.Key] = f
 			}
 		}
+		// helpers added since the pins were reviewed are inlined, so that every rule reading a normal form sees through
+		// an extracted helper (the most common behaviour-preserving refactoring); see baseline_funcs.go
+		if base, ok := baselineFuncs[filepath.Base(m.Dir)]; ok {
+			for _, g := range prog.Funcs {
+				if g.Generated && !base[g.Name] && g.Key != skip && !reachesItself(prog, g) {
+					n.Inline[g.Key] = g
+				}
+			}
+		}
+		return n
 	}
+	if filepath.Base(m.Dir) == "fc" {
+		recoverRenames(c, prog, m.Main().PkgPath, mkNorm)
+	}
+	n := mkNorm("")
 	gen, opq := 0, 0
 	for _, f := range prog.Funcs {
 		if f.Generated {
